@@ -380,6 +380,42 @@ func ruleSortedRulesIdentity(c *Ctx) {
 	c.Check(hasG && hasI, rule, "Rule.Key()", "built from the group id and the id", P.pos(kf.Pos()), "")
 }
 
+// ruleFreshManagerPerTerm: the cluster object outlives leader terms; what a new
+// term serves must be what storage holds now, so Start builds a new rule
+// manager before it initialises it (an initialised manager does not reload).
+// And the order of rules is decided by comparisons, never by the sign of a
+// difference that can wrap around.
+func ruleFreshManagerPerTerm(c *Ctx) {
+	P := c.P
+	rule := c.Prop + "/load-and-save-keys"
+	start := P.Method("server/cluster", "RaftCluster", "Start")
+	rm := P.Field("server/cluster", "RaftCluster", "ruleManager")
+	newRM := F(P.Func(plc, "NewRuleManager"))
+	ini := F(P.Method(plc, "RuleManager", "Initialize"))
+	fresh := &calledEv{name: "c.ruleManager = NewRuleManager(…)", match: func(x ssa.Instruction) bool {
+		st, ok := x.(*ssa.Store)
+		return ok && fieldOfAddr(st.Addr) == rm && valueIsCallTo(st.Val, newRM)
+	}}
+	c.need(rule, start, "call RuleManager.Initialize", instrCallMatcher(ini), []Ev{fresh}, all,
+		"every start of the cluster (every leader term) initialises a newly created rule manager, so the rules are loaded from storage again")
+	cmp := P.Func(plc, "compareRule")
+	c.saw(fnName(cmp))
+	okConst, n := true, 0
+	for _, b := range cmp.Blocks {
+		r, ok := b.Instrs[len(b.Instrs)-1].(*ssa.Return)
+		if !ok || len(r.Results) != 1 {
+			continue
+		}
+		for _, alt := range valueAlternatives(retVal(r, 0), 4) {
+			n++
+			if derivesFrom(alt, func(v ssa.Value) bool { b, ok := v.(*ssa.BinOp); return ok && b.Op == token.SUB }, 3) {
+				okConst = false
+			}
+		}
+	}
+	c.Check(okConst && n > 0, c.Prop+"/index-identity", "results of "+fnName(cmp), "−1, 0 or 1 decided by comparisons (a returned difference changes sign when it overflows, and the order stops being transitive)", P.pos(cmp.Pos()), "")
+}
+
 // ruleRangeRulesOwnSlice: the sweep keeps one active set and edits it in place
 // (insertRule/deleteRule shift elements). What a finished segment stores must
 // therefore be its own copy — only the very last segment may keep the set
@@ -446,6 +482,6 @@ func init() {
 		c.Group("C13/validity", "every segment is validated on the rule set that will apply (after override): non-empty, one leader at most, at least one voter or leader", func() { ruleValidityAtoms(c) })
 		c.Group("C13/index-identity", "the sweep building the key-range index drops a rule from the active set by its full (group id, id) key", func() { ruleSortedRulesIdentity(c); ruleRangeRulesOwnSlice(c) })
 		c.Group("C13/borrowed-immutable", "rules handed out by the manager are never edited in place", func() { ruleBorrowedImmutable(c) })
-		c.Group("C13/load-and-save-keys", "rules are saved under their canonical key, mis-keyed entries are repaired at load, write errors abort", func() { ruleLoadRepair(c); ruleInitializeOrder(c) })
+		c.Group("C13/load-and-save-keys", "rules are saved under their canonical key, mis-keyed entries are repaired at load, write errors abort", func() { ruleLoadRepair(c); ruleInitializeOrder(c); ruleFreshManagerPerTerm(c) })
 	})
 }
